@@ -284,7 +284,7 @@ func (g *Gen) Device(t []*GVsys, nedits int) ([]*GVsys, []string) {
 				}
 			}
 		}
-		switch g.Rng.Intn(17) {
+		switch g.Rng.Intn(18) {
 		case 0: // rule missing on device
 			if len(v.Rules) > 0 {
 				i := g.Rng.Intn(len(v.Rules))
@@ -426,6 +426,20 @@ func (g *Gen) Device(t []*GVsys, nedits int) ([]*GVsys, []string) {
 					v.Groups[j][0] = nn
 					v.Groups[i] = append([]string{v.Groups[i][0]}, g.members(v, 1+g.Rng.Intn(5))...)
 					ops = append(ops, "group-suffix-clash")
+				}
+			}
+		case 17: // device holds rule X with other content and another rule named X-1
+			if len(v.Rules) > 1 {
+				i := g.Rng.Intn(len(v.Rules))
+				j := g.Rng.Intn(len(v.Rules) - 1)
+				if j >= i {
+					j++
+				}
+				nn := v.Rules[i].Name + "-1"
+				if !hasRule(v, nn) {
+					v.Rules[j].Name = nn
+					v.Rules[i].Dst = []string{g.addr(v)}
+					ops = append(ops, "rule-name-suffix-clash")
 				}
 			}
 		case 16: // address value / service port one character off
